@@ -223,7 +223,9 @@ func r4(w *world) {
 
 // R5 foreign traffic: a non-member (9) and a foreign correlation id interleaved; must never surface.
 func r5(w *world) {
-	w.net.Inject(9, w.me, wire("a", []byte("EVIL9")))
+	// what the non-member sends first: a well-formed message, or a frame that does not decode (empty, truncated, junk) —
+	// traffic from outside the quorum is dropped whatever it contains and cannot fail anybody's receive
+	w.net.Inject(9, w.me, [][]byte{wire("a", []byte("EVIL9")), {}, {0xa2}, {0xff, 0x00, 0x13}}[mcrt.Choose("foreign-frame", 4)])
 	w.net.Inject(9, w.me, wire("a", []byte("EVIL8"))) // a non-member cannot poison the mailbox either
 	w.net.Inject(2, w.me, wire("zz", []byte("FOREIGN")))
 	w.net.Inject(2, w.me, wire("a", []byte("2a")))
